@@ -476,6 +476,71 @@ impl Build for X_U8 {
     }
 }
 
+impl Build for X_U8P {
+    const NSEL: u8 = 1;
+    fn canon(v: &AnyV) -> Canon {
+        let mut c = Canon::new();
+        let mut i = 0;
+        while i < v.m {
+            c.put(v.it[i]);
+            i += 1;
+        }
+        c.put(v.m as u8);
+        c
+    }
+    fn need(v: &AnyV) -> usize {
+        if v.m == 0 {
+            2
+        } else {
+            3 * v.m
+        }
+    }
+    fn emplace<'a>(v: &AnyV, bytes: &'a mut [u8]) -> Result<&'a mut FlexVec<u8, le::U16>, Error> {
+        let it = v.it;
+        FlexVec::<u8, le::U16>::new_in_place(bytes, flex::FromIterator::new((0..v.m).map(move |i| it[i])))
+    }
+    fn assign<'a>(v: &AnyV, t: &'a mut FlexVec<u8, le::U16>) -> Result<&'a mut FlexVec<u8, le::U16>, Error> {
+        let it = v.it;
+        t.assign_in_place(flex::FromIterator::new((0..v.m).map(move |i| it[i])))
+    }
+}
+
+impl Build for U_E5 {
+    const NSEL: u8 = 2;
+    fn canon(v: &AnyV) -> Canon {
+        let mut c = Canon::new();
+        c.put(v.sel);
+        if v.sel == 1 {
+            c.put(v.a);
+            c.put32(v.c);
+            c.put(v.it[0]);
+        }
+        c
+    }
+    fn need(v: &AnyV) -> usize {
+        if v.sel == 0 {
+            4
+        } else {
+            16
+        }
+    }
+    fn fits_static(v: &AnyV, n: usize) -> bool {
+        v.sel == 0 || fl(n - 4, 4) >= 9
+    }
+    fn emplace<'a>(v: &AnyV, bytes: &'a mut [u8]) -> Result<&'a mut UE5, Error> {
+        match v.sel {
+            0 => UE5::new_in_place(bytes, UE5InitA),
+            _ => UE5::new_in_place(bytes, UE5InitB(v.a, v.c, v.it[0])),
+        }
+    }
+    fn assign<'a>(v: &AnyV, t: &'a mut UE5) -> Result<&'a mut UE5, Error> {
+        match v.sel {
+            0 => t.assign_in_place(UE5InitA),
+            _ => t.assign_in_place(UE5InitB(v.a, v.c, v.it[0])),
+        }
+    }
+}
+
 impl Build for X_U16 {
     const NSEL: u8 = 1;
     fn canon(v: &AnyV) -> Canon {
